@@ -229,10 +229,13 @@ def run(rep, pdb, tier):
     from .c01 import rule_magnitude, check_argmax
     rule_magnitude(rep, pdb, ["matrix::Matrix<T>::solve_basic"], key="step-solver/magnitude")
     mac = pdb.fn("matrix::Matrix<T>::max_abs_in_column")
-    if mac is None:
-        rep.missing("step-solver/argmax", "pivot search exists", "max_abs_in_column not found")
-    else:
+    pp0 = pdb.fn("matrix::Matrix<T>::partial_pivot")
+    if mac is not None:
         check_argmax(rep, pdb, mac, "step-solver", P(2), F(P(0), "rows"), 1, lambda c: P(1))
+    elif pp0 is not None:
+        check_argmax(rep, pdb, pp0, "step-solver", P(2), F(P(0), "rows"), 1, lambda c: P(2))      # the search written out in partial_pivot(x, k)
+    else:
+        rep.missing("step-solver/argmax", "pivot search exists", "max_abs_in_column not found")
     from .c01 import check_gauss
     check_gauss(rep, pdb, "step-solver/elimination")
     from .c01 import check_early_returns
